@@ -141,6 +141,11 @@ Proof. exact ParseUsedProof.used_lifetimes_exact. Qed.
 (* likewise the const parameters a field type uses as array lengths (get_array_lens), at any nesting depth *)
 Theorem array_lens_exact : forall t, wf t -> array_lens (embed t) = lens_of t.
 Proof. exact ParseUsedProof.array_lens_exact. Qed.
+(* which TYPE parameters a field type uses (the tests of the struct derive against the type's own path and Type::wraps()): a bare path n
+   is seen everywhere in the type except directly behind a reference that is not the field type itself. This is known finding D8 stated
+   exactly (ParseUsedProof.param_behind_reference_not_seen: Option<&'a T> does not count T, &'a T and Vec<(T, u8)> do). *)
+Theorem param_used_exact : forall n t, wf t -> param_used n (embed t) = used_spec n t.
+Proof. exact ParseUsedProof.param_used_exact. Qed.
 (* the finding the proof produced: `&&T` is not consumed as one type (the real parser then panics on the leftover) *)
 Example nested_ref_not_one_type :
   next_type 5 (lex (GRef None (GRef None (GPath "T" nil nil)))) = Ok (Some (Ty CUnNamed None (Some None) None)) (TP PAmp :: TId "T" :: nil).
@@ -155,3 +160,4 @@ Print Assumptions parsed_field_flags.
 Print Assumptions used_lifetimes_exact.
 Print Assumptions array_lens_exact.
 Print Assumptions enum_parse_complete.
+Print Assumptions param_used_exact.
